@@ -275,7 +275,15 @@ fn encode<'t, T>(
                         pattern.push(')');
                     }
                 },
-                (Only, Wildcard(Tree { .. })) => grouping.push_str(pattern, "(?s:.*)"),
+                (Only, Wildcard(Tree { has_root })) => {
+                    if *has_root {
+                        // A rooted tree wildcard must match the root.
+                        grouping.push_str(pattern, sepexpr!("{0}(?s:.*)"));
+                    }
+                    else {
+                        grouping.push_str(pattern, "(?s:.*)");
+                    }
+                },
             },
             TokenTopology::Branch(branch) => match branch {
                 Alternation(alternation) => {
